@@ -115,7 +115,7 @@ pub fn meta(prop: &str) -> Meta {
         ),
         "C02" => (
             "exploration",
-            "each evaluation = one recording -> slippi::read (hash on/off) -> peppi::write (none/LZ4/ZSTD, short-writing sink) -> peppi::read (fragmenting stream) -> slippi::write, with the statement's corners (no frames, no metadata, no end, no gecko, 3.0-3.6) forced at 5 % each; oracle: final bytes == recorded bytes, hash and quirks unchanged. distinct = shape signature incl. compression and hash option; every completed evaluation is non-trivial (the archive leg always runs)",
+            "each evaluation = one recording -> slippi::read (hash on/off) -> peppi::write (none/LZ4/ZSTD, short-writing sink) -> peppi::read (fragmenting stream) -> slippi::write, with the statement's corners (no frames, no metadata, no end, no gecko, 3.0-3.6) forced at 5 % each, and rare classes: more than 65 536 frames, metadata above 1 MiB, an idle recording of 24 000-64 000 frames in which every event repeats the previous one; 1 run in 10 fills the sink (then peppi::write must return Err); oracle: final bytes == recorded bytes, hash and quirks unchanged. distinct = shape signature incl. compression and hash option; every completed evaluation is non-trivial (the archive leg always runs)",
             none,
         ),
         "C03" => (
@@ -140,7 +140,7 @@ pub fn meta(prop: &str) -> Meta {
         ),
         "C07" => (
             "fault_enumeration",
-            "each evaluation = one finished recording for which EVERY proper prefix (files <= 3000 bytes in quick, <= 40 000 in thorough; otherwise all event boundaries +-2, 300/3000 random offsets, head and tail) is read with and without skip-frames, then its .slpp (drawn compression) cut at every 512-block boundary +-2, every entry end, every Arrow IPC message boundary, the last 600 bytes and 300/4000 random offsets (all offsets in thorough up to 80 000 bytes); oracle: .slp prefix -> Err; .slpp prefix -> Err or exactly the uncut game; never a panic or a stalled read. crash points are counted in faults_fired; distinct = shape signature of the file; every evaluation is non-trivial",
+            "each evaluation = one finished recording for which EVERY proper prefix (files <= 3000 bytes in quick, <= 40 000 in thorough; otherwise all event boundaries +-2, 300/3000 random offsets, head and tail) is read with and without skip-frames, then its .slpp (drawn compression) cut at every 512-block boundary +-2, every entry end, every Arrow IPC message boundary, the last 600 bytes and 300/4000 random offsets (all offsets in thorough up to 80 000 bytes); 1 recording in 60 (quick) / 150 (thorough) has more than 65 536 frames and is cut only at the first/last event boundaries, every entry end, every IPC message boundary +-2, head, tail and a few dozen random offsets; oracle: .slp prefix -> Err; .slpp prefix -> Err or exactly the uncut game; never a panic or a stalled read. crash points are counted in faults_fired; distinct = shape signature of the file; every evaluation is non-trivial",
             none,
         ),
         "C08" => (
